@@ -159,6 +159,8 @@ func (r *scanner) logCompactHistory(revision uint64) {
 		revision: revision,
 		time:     time.Now(),
 	}
+	r.compactHistories.Lock()
+	defer r.compactHistories.Unlock()
 	r.compactHistories.push(cr)
 }
 
@@ -167,7 +169,8 @@ func (r *scanner) getTimeoutRevision() uint64 {
 		return 0
 	}
 
-	// todo: if it's need to lock here to make it called concurrent-safely?
+	r.compactHistories.Lock()
+	defer r.compactHistories.Unlock()
 	prev := &compactRecord{}
 	head := r.compactHistories.head()
 	for head != nil {
